@@ -74,8 +74,20 @@ def gen_any(rng):
     return {"api": rng.choice(["type1", "type2"]), "acts": acts}
 
 
+def _double(acts):
+    c = False
+    for a in acts:
+        if a in ("cok", "with", "withx") and c:
+            return True
+        if a == "cok":
+            c = True
+        if a in ("disc", "with", "withx"):
+            c = False
+    return False
+
+
 ANY = C.Kind("client-life-unrestricted", impl=_impl, model=lambda a: "clife " + " ".join(a["acts"]), judge=_judge,
-             classify=lambda a, o: f"{a['api']}:maxopen{max(int(x.split(':')[2]) for x in o.split(' '))}",
+             classify=lambda a, o: f"{a['api']}:{'connects-over-open-connection' if _double(a['acts']) else 'alternating'}:maxopen{max(int(x.split(':')[2]) for x in o.split(' '))}",
              nontrivial=lambda a, o: (a["api"], tuple(a["acts"])),
              shrink=lambda a: [dict(a, acts=a["acts"][:i] + a["acts"][i + 1:]) for i in range(len(a["acts"]))])
 KINDS["client-life-unrestricted"] = ANY
